@@ -73,13 +73,14 @@ def plan(tier, seed):
     big = [i for i in ins if i['d'].get('t') == 'file']
     small = [i for i in ins if i['d'].get('t') != 'file']
     shards = [small[i:i + 8] for i in range(0, len(small), 8)] + [[b] for b in big]
+    shards += [[dict(src='main', order=list(o), sel=list(sel))] for o in ((0, 1, 2), (2, 0, 1)) for sel in (('A',), ('B',), ('B', 'A'))]
     return dict(shards=shards, exhaustive=True,
                 rule=('inputs: C01 record streams with a chain change (quick: a fixed 1/32 sub-enumeration; thorough: all up to 3 '
                       'deviations), docked pairs (4x6 kinds), clusters, 12 A cut-outs around titratable residues of 4 proteins, whole '
                       'multi-chain files; selections: every non-empty proper subset of the chain ids (inputs with > 4 chains: '
                       'singletons and their complements), each given in both flag orders for 2-subsets; for corpus inputs every selection is '
                       'also run together with -i (first residue of a selected chain / of a deleted chain / both), -d and -k on both '
-                      'sides. non-trivial = distinct '
+                      'sides; propka.run.main on three files with one selection. non-trivial = distinct '
                       '(input, selection) whose selected part contains at least one group'),
                 bounds=dict(inputs=len(ins)), samples=[ins[0], ins[-1]])
 
@@ -123,7 +124,50 @@ def co_options(s, sel, case, tier):
     return out
 
 
+def main_files(case, ctx, acc):
+    """propka.run.main with three two-chain structures and one -c selection: every written .pka file equals the one written for
+    the literal file without the other chain."""
+    import io
+    import os
+    import sys
+    import propka.run
+    descs = [corpus.pair_desc('ASP', 'LYS', 2.8, 'exposed'), corpus.pair_desc('HIS', 'GLU', 3.0, 'exposed'), corpus.pair_desc('TYR', 'ARG', 3.0, 'exposed')]
+    order = case['order']
+    structs = [corpus.build(descs[i], ctx.seed) for i in order]
+    names = ['m%d_%d.pdb' % (k, i) for k, i in enumerate(order)]
+    for nm, st in zip(names, structs):
+        with open(nm, 'w') as fh:
+            fh.write(gen.to_text(st))
+    argv = ['propka3', names[-1]]
+    for nm in names[:-1]:
+        argv += ['-f', nm]
+    for c in case['sel']:
+        argv += ['-c', c]
+    old, saved = sys.argv, sys.stdout
+    sys.argv, sys.stdout = argv + ['-q'], io.StringIO()
+    try:
+        propka.run.main()
+    finally:
+        sys.argv, sys.stdout = old, saved
+    acc.case(nontrivial_key=jhash(case), outcome='main-files')
+    for nm, st in zip(names, structs):
+        with open(nm[:-4] + '.pka') as fh:
+            got = [ln for ln in fh.read().splitlines() if not ln.startswith('propka')]
+        os.unlink(nm[:-4] + '.pka')
+        deleted = gen.to_text([i for i in st.items if isinstance(i, str) or i.chain in case['sel']])
+        ref = pk.run(deleted, (), name=nm, write=True)
+        want = [ln for ln in ref._pka_text.splitlines() if not ln.startswith('propka')]
+        if got != want:
+            diff = next(((a, b) for a, b in zip(got, want) if a != b), (len(got), len(want)))
+            acc.viols.append(Viol(case, 'chain-select', 'selection-differs-from-deletion/main-several-files',
+                                  '%s written by main -c %s differs from the file for the deleted input: %r' % (nm, case['sel'], diff),
+                                  inputs=dict(argv=argv)))
+            break
+
+
 def run_case(case, ctx, acc):
+    if case.get('src') == 'main':
+        return main_files(case, ctx, acc)
     s = build(case, ctx.seed)
     if s is None:
         acc.skipped += 1
